@@ -122,9 +122,12 @@ def cmd_run(i, props):
     runs = m.setdefault("check_runs", {})
     for p in props:
         t0 = time.time()
+        import fcntl
+        os.makedirs(os.path.join(VERIF, "build"), exist_ok=True)
+        lk = open(os.path.join(VERIF, "build", "lock-" + p), "w"); fcntl.flock(lk, fcntl.LOCK_EX)
         evf = os.path.join(VERIF, "evidence", p + ".json")
         evb = open(evf).read() if os.path.exists(evf) else None
-        env = dict(os.environ, VERIF_REPO=sc, VERIF_JOBS=os.environ.get("VERIF_JOBS", "12"))
+        env = dict(os.environ, VERIF_REPO=sc, VERIF_JOBS=os.environ.get("VERIF_JOBS", "12"), VF_LOCK_HELD="1")
         e = subprocess.run([sys.executable, os.path.join(VERIF, "check.py"), p, "--tier", os.environ.get("SEEDED_TIER", "quick")], env=env,
                            stdout=subprocess.PIPE, stderr=subprocess.PIPE, text=True)
         viol = [l for l in e.stdout.splitlines() if l.startswith("VIOLATION")]
@@ -137,6 +140,7 @@ def cmd_run(i, props):
             open(evf, "w").write(evb)
         # replays produced against the changed tree are not kept
         shutil.rmtree(os.path.join(VERIF, "replays", p), ignore_errors=True)
+        lk.close()
     shutil.rmtree(sc, ignore_errors=True)
     save(i, m)
 
